@@ -228,3 +228,80 @@ Proof.
   assert (W : wf_tm ex_none) by (apply wf_tmb_sound; vm_compute; reflexivity).
   split; [exact W|]. split; [apply (tracks_connectedb_sound ex_none W); vm_compute; reflexivity|]. vm_compute. repeat split.
 Qed.
+
+(* =====================================================================================================================
+   DEEPENING (c03x): ONE write_dicts model.  TrackMate.v models the part of NxBackend.write / write_dicts / dict_props_to_arr the
+   converter uses by itself (col_values, col_default, col_arr, roi_arr, missing_arr, ids_arr, wgraph_of); theories/TrackMateDicts.v
+   proves that on the values the converter produces it coincides with theories/Dicts.v -- the model C03 ties to networkx /
+   rustworkx / spatial-graph and C05 / C06 tie to the store -- so the statements above rest on that one model.
+   tr_attrs translates the values (VInt -> PInt, VFlt -> PFloat, polygon -> nested float list, VStr r -> PStr (r_tok r - 1): the two
+   files number strings differently, shift_props renames the tokens in the stored string arrays and leaves every other array alone);
+   the property names are TrackMate.keys_of's enumeration of the Python set (Dicts.dict_props_to_arr takes the names as an argument).
+   ===================================================================================================================== *)
+From Geff Require Dicts.
+From Geff Require Import TrackMateDicts.
+
+(* elements whose values are typed by their key (ints of the int64 range, floats, strings, polygons of equally long tuples; any number
+   of elements, any subset carrying each key): both models succeed and produce the same properties -- dtype, values, fill values
+   (0, 0.0, "", the first polygon), missing masks, and for polygons of different sizes the same object array built by
+   construct_var_len_props *)
+Theorem C16_dicts_model_coincides : forall kf elts, Forall (typedk kf) elts ->
+  exists ps, TrackMate.dict_props_to_arr elts = Ok ps /\
+             Dicts.dict_props_to_arr (map tr_attrs elts) (keys_of elts) = Ok (shift_props ps).
+Proof. exact dict_props_coincide. Qed.
+Print Assumptions C16_dicts_model_coincides.
+
+(* one column, by kind: int / float / string columns ... *)
+Theorem C16_dicts_scalar_column : forall k elts name, In name (keys_of elts) -> col_kind k elts name -> k <> KR ->
+  Dicts.dict_prop (Dicts.column (map tr_attrs elts) name) = Ok (shift_str (scalar_prop k name elts)).
+Proof. exact scalar_bridge. Qed.
+Print Assumptions C16_dicts_scalar_column.
+
+(* ... and polygon columns: np.asarray of the whole column when all polygons have one shape, else the ValueError route into
+   construct_var_len_props, element by element *)
+Theorem C16_dicts_roi_column : forall elts name, In name (keys_of elts) -> col_kind KR elts name ->
+  Dicts.dict_prop (Dicts.column (map tr_attrs elts) name) = Ok (mkprop (roi_pv name elts) (missing_arr (col_missing name elts))).
+Proof. exact roi_bridge. Qed.
+Print Assumptions C16_dicts_roi_column.
+
+(* the arrays handed to write_arrays for a well-formed document: Dicts.dicts_wgraph (node_ids_arr, edge_ids_arr, dict_props_to_arr)
+   on the dictionaries of the converted graph gives the arrays every theorem above is about; hence write_dicts of Dicts.v on them is
+   the write_arrays call of from_trackmate *)
+Theorem C16_dicts_wgraph : forall d ds dt, wf_tm d ->
+  Dicts.dicts_wgraph (dg_final d ds dt) (keys_of (nelts d ds dt)) (keys_of (map snd (eouts d ds dt)))
+  = Ok (shift_wgraph (wgraph_final d ds dt)) /\
+  forall md s, Dicts.write_dicts KPath (dg_final d ds dt) (keys_of (nelts d ds dt)) (keys_of (map snd (eouts d ds dt))) md s
+               = write_arrays KPath (shift_wgraph (wgraph_final d ds dt)) md true false s.
+Proof. intros d ds dt W. split; [apply tm_dicts_wgraph; exact W | intros md s; apply tm_write_dicts; exact W]. Qed.
+Print Assumptions C16_dicts_wgraph.
+
+(* C16_features / C16_edge_features on the Dicts model: the property Dicts.dict_props_to_arr computes for a declared feature is the
+   feat_prop of those theorems (numeric arrays: no renaming involved) *)
+Theorem C16_features_dicts : forall d ds dt dc b, wf_tm d -> In dc (sdecls d) -> d_isint dc = Some b ->
+  (exists sp, In sp (kept_spots d ds dt) /\ ahas (d_feat dc) (sp_attrs sp) = true) ->
+  exists nps, Dicts.dict_props_to_arr (map tr_attrs (nelts d ds dt)) (keys_of (nelts d ds dt)) = Ok nps /\
+              alookup (d_feat dc) nps = Some (feat_prop b (d_feat dc) (map sp_attrs (kept_spots d ds dt))).
+Proof. exact tm_dicts_feature. Qed.
+Print Assumptions C16_features_dicts.
+
+Theorem C16_edge_features_dicts : forall d ds dt dc b, wf_tm d -> In dc (edecls d) -> d_isint dc = Some b ->
+  (exists e, In e (final_edges d ds dt) /\ ahas (d_feat dc) (link_attrs d e) = true) ->
+  exists eps, Dicts.dict_props_to_arr (map tr_attrs (map snd (eouts d ds dt))) (keys_of (map snd (eouts d ds dt))) = Ok eps /\
+              alookup (d_feat dc) eps = Some (feat_prop b (d_feat dc) (map (link_attrs d) (final_edges d ds dt))).
+Proof. exact tm_dicts_edge_feature. Qed.
+Print Assumptions C16_edge_features_dicts.
+
+(* non-vacuity on the example document (int / float features on subsets, the string feature "name", polygons of 3, 4 and 1 points):
+   the Dicts model computes the very arrays; "name" is the one string column (tokens renamed), ROI_coords the object array *)
+Example C16_dicts_nonvacuous :
+  Dicts.dicts_wgraph (dg_final ex_tm false false) (keys_of (nelts ex_tm false false)) (keys_of (map snd (eouts ex_tm false false)))
+  = Ok (shift_wgraph (wgraph_final ex_tm false false)) /\
+  option_map (fun p => match p_vals p with PFixed a => (a_dt a, List.length (a_flat a)) | PVlen _ => (DObj, 0%nat) end)
+             (alookup "name" (match w_nprops (shift_wgraph (wgraph_final ex_tm false false)) with Some ps => ps | None => [] end))
+  = Some (DStr, 7%nat) /\
+  option_map (fun p => match p_vals p with PVlen es => List.length es | PFixed _ => 0%nat end)
+             (alookup "ROI_coords" (match w_nprops (shift_wgraph (wgraph_final ex_tm false false)) with Some ps => ps | None => [] end))
+  = Some 7%nat /\
+  alookup "K" (match w_nprops (shift_wgraph (wgraph_final ex_tm false false)) with Some ps => ps | None => [] end)
+  = Some (mkprop (PFixed (mkarr DI64 [7%nat] [3; 0; 0; 4; 0; -7; 0])) (Some (mkarr DBool [7%nat] [0; 1; 1; 0; 1; 0; 1]))).
+Proof. vm_compute. repeat split. Qed.
